@@ -21,7 +21,7 @@ STUBS = ["builtins.open / os.* / os.path.* (in-memory POSIX file system with unl
 
 DEFAULT_KNOBS = {"bufsize": 8192, "hide_fileno": False, "compound": True,
                  "blocklimit": 128, "compression": 3, "limitmb": 128,
-                 "inlinelimit": 1, "mmap": True, "cbuf": 32768}
+                 "inlinelimit": 1, "mmap": True, "cbuf": 32768, "offcut": 32768, "aupart": 2048}
 
 
 def make_record(pid, seed, cfg, ops, **extra):
